@@ -157,6 +157,9 @@ let register (reg : string -> (string list -> string) -> unit) =
     | _ -> failwith "args");
   reg "pagescript" pagescript;
   reg "wqscript" wqscript;
+  reg "maxpages" (fun a -> match a with
+    | [ms; ps] -> string_of_z (max_pages_of (z_of_string ms) (z_of_string ps))
+    | _ -> failwith "args");
   reg "checktruncate" (fun a -> match a with
     | [l; s; mm; mx; ps] ->
       let (e, t) = check_truncate (z_of_string l) (z_of_string s) (z_of_string mm) (z_of_string mx) (z_of_string ps) in
